@@ -331,6 +331,8 @@ class Flattener(object):
 
     def loop_body(self, stmts, res):
         """inside a single loop level: `return e` -> `res = e; break` (only through if-statements)"""
+        if callable(res) and _contains(stmts, ast.Return):
+            raise _NoInline()
         out = []
         for s in stmts:
             if isinstance(s, ast.Return):
@@ -350,6 +352,8 @@ class Flattener(object):
 
     @staticmethod
     def assign_result(res, value, at):
+        if callable(res):
+            return res(value, at)
         if res is None:
             if value is not None and not _pure(value):
                 return [ast.copy_location(ast.Expr(value=value), at)]
@@ -501,6 +505,8 @@ class Flattener(object):
                     new_body, tail = body, []
                     if not self.always_returns(body):
                         new_body = body + [ast.copy_location(ast.Return(value=None), stmt)]
+                elif isinstance(stmt, ast.If) and self.direct_test(stmt, call, body):
+                    new_body, tail = self.direct_test(stmt, call, body), []
                 elif isinstance(stmt, ast.Expr) and whole_value:
                     new_body, _ = self.convert(body, None, True)
                     tail = []
@@ -536,6 +542,39 @@ class Flattener(object):
             for h in stmt.handlers:
                 h.body = self.rewrite_block(h.body, cls, stack)
         return [stmt]
+
+    def direct_test(self, stmt, call, body):
+        """`if helper(...): X else: Y` (or `if not helper(...)`): every `return e` of the helper becomes
+        `if e: X else: Y` (X or Y alone for a constant e) - exact, and no result variable is needed.
+        Returns the statement list or None when the helper returns from inside a loop."""
+        t = stmt.test
+        neg = False
+        if isinstance(t, ast.UnaryOp) and isinstance(t.op, ast.Not):
+            t, neg = t.operand, True
+        if t is not call:
+            return None
+        cache = getattr(self, '_direct_cache', None)
+        if cache is None:
+            cache = self._direct_cache = {}
+        if id(call) in cache:
+            return cache[id(call)]
+
+        def on_return(value, at):
+            if value is None or isinstance(value, ast.Constant):
+                truth = bool(value.value) if value is not None else False
+                if neg:
+                    truth = not truth
+                return clone(stmt.body if truth else stmt.orelse)
+            test = value if not neg else ast.copy_location(ast.UnaryOp(op=ast.Not(), operand=value), value)
+            return [ast.copy_location(ast.If(test=test, body=clone(stmt.body), orelse=clone(stmt.orelse)), at)]
+        try:
+            new_body, term = self.convert([clone(x) for x in body], on_return, True)
+            if not term:
+                new_body = new_body + on_return(None, stmt)
+        except _NoInline:
+            new_body = None
+        cache[id(call)] = new_body
+        return new_body
 
     def statement_helper_in(self, expr, cls, stack):
         """the expression contains a call to an inlinable helper that is not a single-return expression helper"""
